@@ -29,6 +29,15 @@ fn pick_indices(n: usize, k: usize) -> Vec<usize> {
         (0..n).collect()
     } else {
         let mut v = vec![0, 1, n / 2, n - 2, n - 1];
+        // the engine processes long vectors in 64- and 128-element blocks (bit unpacking of random
+        // words, transposition, chunked checks): both sides of the first block boundaries and of the
+        // last full block
+        v.extend([62, 63, 64, 127, 128]);
+        v.extend([(n / 128) * 128, ((n / 128) * 128).saturating_sub(1)]);
+        if n >= 64 {
+            // the last index that is 63 mod 64
+            v.push(((n - 64) / 64) * 64 + 63);
+        }
         v.retain(|i| *i < n);
         v.sort();
         v.dedup();
